@@ -72,6 +72,9 @@ def check_response(label, res, api, package_dir, target_files, services, failure
         failures.append(dict(label, what="something emitted for a dependency-only file", names=[n for n in names if "other" in n][:3]))
     if any(n.rsplit("/", 1)[-1].startswith("_") and not n.endswith("__init__.py") for n in names):
         failures.append(dict(label, what="underscore-prefixed template emitted", names=[n for n in names if n.rsplit("/", 1)[-1].startswith("_")][:3]))
+    bad_seg = sorted({seg for n in py for seg in n[:-3].split("/") if not seg.isidentifier()})
+    if bad_seg:
+        failures.append(dict(label, what="a directory or module on the package's import path is not a Python identifier", segments=bad_seg[:5]))
     dirs = {n.rsplit("/", 1)[0] for n in names if n.endswith(".py") and n.startswith(package_dir)}
     for d in sorted(dirs):
         cur = d
@@ -105,7 +108,13 @@ def scenarios():
             check_response(label, res, api, pdir, list(files), ["lab", "archive"], failures)
     # name / namespace overrides
     for opt, pdir in (("python-gapic-name=widgets", "acme/widgets_v1"), ("python-gapic-namespace=Foo.Bar", "foo/bar/lab_v1"), ("python-gapic-namespace=Foo,python-gapic-namespace=Bar", "foo/bar/lab_v1"),
-                      ("python-gapic-namespace=Foo.Bar,python-gapic-name=widgets", "foo/bar/widgets_v1")):
+                      ("python-gapic-namespace=Foo.Bar,python-gapic-name=widgets", "foo/bar/widgets_v1"),
+                      # repeated scalar override: protoc joins all --python_gapic_opt values with ',', defaults first - the later value takes effect
+                      ("python-gapic-name=draft,python-gapic-name=catalog", "acme/catalog_v1"),
+                      ("python-gapic-name=draft,metadata,python-gapic-name=shelves,python-gapic-namespace=Foo.Bar", "foo/bar/shelves_v1"),
+                      # override values that are not identifiers: the directory is the lower-cased name with every other character made '_'
+                      ("python-gapic-name=book_catalog", "acme/book_catalog_v1"), ("python-gapic-name=Book Catalog", "acme/book_catalog_v1"),
+                      ("python-gapic-name=my-lib", "acme/my_lib_v1")):
         cases += 1
         label = {"package": "acme.lab.v1", "option": opt}
         try:
@@ -152,3 +161,36 @@ def scenarios():
     except Exception as e:       # noqa
         failures.append({"what": "same-base-name request failed", "error": repr(e)[:160], "known": "same-base-name"})
     return {"cases": cases, "failures": failures}
+
+
+def options_bounded():
+    """Bounded check of the real Options.build over option strings built from <= 4 items out of a small alphabet (known scalar overrides repeated with
+    different values, the list-valued namespace, flags, unknown keys, blanks): the scalar override is the LAST value given, the namespace the
+    concatenation of all values split on '.', unknown items change nothing."""
+    import itertools, warnings
+    from gapic.utils.options import Options
+    items = ["python-gapic-name=a", "python-gapic-name=b", "python-gapic-namespace=X.Y", "python-gapic-namespace=Z", "metadata", "foo", "foo=bar", "  python-gapic-name=c ",
+             "transport=grpc", "transport=rest", "python-gapic-unknown=1", ""]
+    failures, n = [], 0
+    for k in range(0, 4):
+        for combo in itertools.product(items, repeat=k):
+            n += 1
+            opt = ",".join(combo)
+            with warnings.catch_warnings():
+                warnings.simplefilter("ignore")
+                try:
+                    o = Options.build(opt)
+                except Exception as e:      # noqa
+                    failures.append({"options": opt, "what": "rejected", "error": repr(e)[:120]})
+                    continue
+            names = [c.strip().split("=", 1)[1] for c in combo if c.strip().startswith("python-gapic-name=")]
+            ns = tuple(c.strip().split("=", 1)[1] for c in combo if c.strip().startswith("python-gapic-namespace="))       # (split on '.' happens in Naming)
+            tr = [c.split("=", 1)[1] for c in combo if c.startswith("transport=")]
+            want = {"name": names[-1] if names else "", "namespace": ns, "metadata": "metadata" in combo, "transport": (tr[0].split("+") if tr else ["grpc"])}
+            got = {"name": o.name, "namespace": tuple(o.namespace), "metadata": bool(o.metadata), "transport": list(o.transport)}
+            if got["name"] != want["name"] or got["namespace"] != want["namespace"] or got["metadata"] != want["metadata"]:
+                failures.append({"options": opt, "what": "Options.build", "got": {k2: got[k2] for k2 in ("name", "namespace", "metadata")},
+                                 "want": {k2: want[k2] for k2 in ("name", "namespace", "metadata")}})
+                if len(failures) > 5:
+                    return {"cases": n, "failures": failures}
+    return {"cases": n, "failures": failures}
